@@ -82,9 +82,28 @@ def generate(rng, tier):
         ev2, data2 = _reply(rng, after_kind, after_text, 1)
         cases.append({"has_port": True, "reqs": [(kind, text), (after_kind, after_text)], "events": ["F"] + ev2, "expect": ["" if kind == "q" else None, data2],
                       "fault_cls": rng.choice(["SerialTimeoutException", "SerialTimeoutException", "SerialException", "OSError"]), "family": "fault-at-the-write"})
+    # the requests that are exempt from fault reporting (RB, and its look-alikes) with a fault at the write, at the first read and at a
+    # later read, every exception class: exempt from reporting is not exempt from returning normally
+    for text in ("RB\r", "rb\r", " RB \r", "R\r", "BL\r", "RB,1\r", "QR\r"):
+        for kind in ("c", "q"):
+            for ev in (["F"], ["E", "F"], ["E", "E", "F"], ["E", ("L", "!Err: x"), "F"]):
+                for cls in ("SerialException", "OSError", "SerialTimeoutException"):
+                    if rng.random() < (0.5 if tier == "quick" else 1.0):
+                        cases.append({"has_port": True, "reqs": [(kind, text), ("q", "QB\r")], "events": list(ev) + _reply(rng, "q", "QB\r", 1)[0], "expect": [None, None],
+                                      "fault_cls": cls, "family": "fault-on-an-exempt-request"})
+    # the host application has switched on debug logging (root logger at DEBUG with a handler): what is logged is not what is sent
+    for c in cases:
+        if rng.random() < 0.12: c["debug_logging"] = True; c["family"] += "/debug-logging"
     return cases
 
 def run_impl(c):
+    if c.get("debug_logging"):
+        import common
+        with common.debug_logging():
+            return _run_impl(c)
+    return _run_impl(c)
+
+def _run_impl(c):
     script = S.Script(c["events"])
     port = S.FakePort(script) if c["has_port"] else None
     if port is not None and c.get("fault_cls"):
